@@ -20,6 +20,21 @@ CHECKS = {
    technique='bounded symbolic execution (CrossHair/z3) of checker.execute / check / do_golden_runs / limit_resources with a nondeterministic fake Popen (time-out or finish, any return code), symbolic real-valued run times and limits, symbolic streams and options',
    text='Decides, for every outcome of the command process (finishes with any exit code incl. signals, or exceeds the limit), every option valuation and every real-valued golden run time / explicit limit: the child is killed and nothing blocks on it, the time-out record is rejected unless the golden run ended the same way, check() never raises, a missing match string ends ddSMT with status 1, the default limit is 1.5 x (runtime + 1) (up to rounding to 2 decimals), RLIMIT_CPU = ceil(limit), RLIMIT_AS = memout MiB on the child pid.',
    note='Trusted: CrossHair/z3; fake Popen/resource modules (contract: communicate(timeout) returns or raises TimeoutExpired); times modelled as mathematical reals (IEEE rounding outside); log formatting stubbed (vlib/stubs/nofmt.py). Outside: kernel enforcement of rlimits, grandchildren holding pipes, total wall time of a run.'),
+ 'C11': dict(
+   category='model_checking', design_ref='DESIGN.md 5 C11',
+   technique='bounded symbolic execution (CrossHair/z3) of nodes.substitute / apply_simp / introduce_variables against a nested-list model; symbolic leaf texts (all aliasing patterns), symbolic choice of designated positions, eight kinds of replacement maps',
+   text='For every forest shape up to the bound, every aliasing pattern between leaf texts, keys and replacement texts (solver-quantified strings) and every choice of pairwise non-nested designated positions: result equals the model, the base is not modified, untouched subtrees are the same objects, the call terminates within its fuel, fresh declarations land after the set-info/set-logic prefix (prefix identifiers are symbolic strings).',
+   note='Trusted: CrossHair/z3, listmodel.subst_paths (30 lines). Hash shim S, id counter reset per path. Outside: larger trees, more than three map entries, multi-character leaves.'),
+ 'C12': dict(
+   category='model_checking', design_ref='DESIGN.md 5 C12',
+   technique='bounded symbolic execution (CrossHair/z3) of Node.__eq__/__hash__/__deepcopy__/__getstate__/__setstate__ and the traversals against a nested-list model, symbolic leaf texts and a symbolic member of a hash-function family (colliding .. collision-free)',
+   text='All pairs of tree shapes up to the bound with symbolic leaf texts: equality == structural equality, symmetric, equal => equal hash, also when subtrees are shared and when the hash function collides; deepcopy gives an equal tree with fresh pairwise-distinct ids; the (un)pickling callbacks round-trip shape, ids, hashes for a leaf of arbitrary code points; dfs/bfs/count_*/filter_nodes agree with the model for every depth limit.',
+   note='Trusted: CrossHair/z3 (incl. its UTF-8 encode/decode model), listmodel, hash family H, native struct shim. binary_search is checked by concrete enumeration (float arithmetic; auxiliary, not solver-decided). Outside: larger trees, transport between real processes.'),
+ 'C13': dict(
+   category='model_checking', design_ref='DESIGN.md 5 C13',
+   technique='bounded exhaustive exploration (CrossHair path enumeration, z3 bookkeeping) of nodes.reduplicate on all DAGs obtained from forests up to the bound by re-using up to two earlier objects',
+   text='For every forest up to the bound and every way of inserting one or two earlier objects (leaf, subtree, empty list) at later non-nested positions: ids pairwise distinct afterwards, tokens unchanged, input not modified, already-unique nodes keep their identity, first occurrence of a shared node keeps its id. The choices are enumerated path by path - a bounded exhaustive claim.',
+   note='Trusted: CrossHair path bookkeeping. Outside: larger forests, more than two shared insertions; the call sites in the strategies are asserted in the C05 harness.'),
 }
 NOT_APPLICABLE = {}
 ALL = ['C%02d' % i for i in range(1, 19)]
